@@ -26,7 +26,8 @@ EXPLANATION = (
     " (R12) a value the declared type cannot represent is rejected: the strict validator raises for a float with a fractional part in an int / long / date / time / timestamp field (pyarrow's from_pylist would truncate it), decided by scenario evaluation of the validator's branches; every from_pylist / write_records of write_data_file runs after that validator for a non-empty batch [D18, fixed]."
     ' (R13) one conversion route: from_pylist(records, schema=...) only - no cast / schema-less rebuild in the write path.'
     " (R14) the Iceberg -> Arrow type table is exact (timestamp('us'), int32 / int64, ...); (R15) no one-shot iterable is consumed in a loop it was not created in."
-    ' (R16) a zip-based pairwise comparison also compares the lengths; R12 requires the declared-type test to cover optional fields too.')
+    ' (R16) a zip-based pairwise comparison also compares the lengths; R12 requires the declared-type test to cover optional fields too.'
+    ' R8: every file of a batch is checked (the per-file loop of append_files / its batch validator is left only when exhausted or by a raise); R2 reads a batch validator that loops over the files itself.')
 NOT_DECIDED = ("value-level round trip through Arrow/Parquet for every type and value class; 'mis-filter' in general; what "
                "pyarrow accepts for a declared type")
 
